@@ -144,6 +144,10 @@ impl<'a> TypingContext<'a> {
     } else {
       return false;
     };
+    if interface_type.is_class_statics {
+      // The class object is not an instance: it has none of the super types of the instances.
+      return false;
+    }
     vec![interface_type]
       .into_iter()
       .chain(
